@@ -166,6 +166,8 @@ def handleKk (rest : List String) : String :=
     | none => "bad-op"
     | some (parts, n, ws, m) =>
       if m = n && (!weightsInContract ws || parts = 0) then "skip outside-contract"
+      -- the list-based k-way model costs about 15 ns · n²k² (one second at the bound)
+      else if parts > 2 && n * n * parts * parts > 60000000 then "skip kk-model-too-slow"
       else
         match Coupe.Kk.run (fresh m) ws parts with
         | .ok ids => verdictOfIds n parts ids
